@@ -6,6 +6,11 @@
 #include <vector>
 #include <iostream>
 #include <functional>
+#ifdef POOL_MAIN
+#include <cstdio>
+#include <cstdlib>
+#include <cstdint>
+#endif
 using namespace squids;
 
 enum { OP_DEFAULT=1, OP_SIZED, OP_EXTERNAL, OP_FROMLIST, OP_ALIGNED, OP_COPYCON, OP_MOVECON, OP_DESTROY, OP_COPYASSIGN, OP_MOVEASSIGN,
@@ -140,6 +145,17 @@ extern "C" int h_op(unsigned op, void* tp, void* s1p, void* s2p, unsigned x, uns
       case OP_UNARYVIEW: if(x==0) t->Transpose(); else if(x==1) *t = s1->Real(); else *t = s1->Imag(); break;
       case OP_GEXPR: {
         unsigned stmt=x/1024, flags=(x/32)%32, expr=x%32;
+#ifdef POOL_MAIN
+        // native counterpart of the asserted optimiser assumption: the history promises AlignedStorage only for library-allocated vectors,
+        // whose storage the library documents as 32-byte aligned (from the second component for odd dimensions)
+        if(flags&4u){
+          const SU_vector* vs[3]={s1,s2,stmt==3?nullptr:t};
+          for(int q=0;q<3;q++) if(vs[q] && vs[q]->Size()>0 && ((uintptr_t)(&(*const_cast<SU_vector*>(vs[q]))[0]+vs[q]->Dim()%2))%32!=0){
+            fprintf(stderr,"ALIGNMENT: guarantee<AlignedStorage> on library-allocated vectors, but the storage of operand %d (dimension %u) is not 32-byte aligned: misaligned vector access\n",q,vs[q]->Dim());
+            exit(69);
+          }
+        }
+#endif
         if(stmt==0) eval_gexpr_f(flags,expr,st_assign{*t},*s1,*s2,c,ext);
         else if(stmt==1) eval_gexpr_f(flags,expr,st_inc{*t},*s1,*s2,c,ext);
         else if(stmt==2) eval_gexpr_f(flags,expr,st_dec{*t},*s1,*s2,c,ext);
@@ -186,11 +202,12 @@ extern "C" unsigned h_sizeof(){ return sizeof(SU_vector); }
 #ifdef POOL_MAIN
 #include <cstdlib>
 #include <cstdio>
+#include <cstdint>
 // allocation ledger and failure injection (env POOL_FAIL_STEP / POOL_FAIL_J: fail the J-th operator new/new[] call made during step STEP)
 static long g_live=0, g_calls_in_step=0; static int g_fail_j=-1; static bool g_armed=false;
 static void* counted_alloc(size_t n){
   if(g_armed){ g_calls_in_step++; if(g_calls_in_step==g_fail_j) throw std::bad_alloc(); }
-  void* p=malloc(n?n:1); if(!p) throw std::bad_alloc(); g_live++; return p; }
+  void* p=aligned_alloc(32,(n?n:1)+31&~(size_t)31); if(!p) throw std::bad_alloc(); g_live++; return p; }   // 32-byte aligned blocks, as in the symbolic allocator policy
 void* operator new[](size_t n){ return counted_alloc(n); }
 void* operator new(size_t n){ return counted_alloc(n); }
 void operator delete[](void* p) noexcept { if(p){ g_live--; free(p);} }
